@@ -1036,7 +1036,17 @@ def plan_threads(focus, seed, tier):
             b.op(op="NEW", m=h, ref=ref, style=rng.choice(["td", "bu"]), frag=frag)
             models.append((h, ref))
     need_plain = False
-    for _c in range(rng.randint(2, 5 if tier == "quick" else 12)):
+    written = []
+    if rt and rng.random() < 0.5:
+        # documents written beforehand by ordinary calls: some lanes below only read, so that
+        # the first read of the interpreter happens inside a schedule
+        for h, _ref in models:
+            path = b.path(focus)
+            b.op(op="WRITE", fmt=focus, m=h, path=path, writer="fresh", pathstyle="abs")
+            written.append((path, focus))
+    cheap = focus not in ("uvl", "uvl-docs")      # (antlr parses dominate the UVL runs)
+    for _c in range(rng.randint(2, (8 if cheap else 5) if tier == "quick" else
+                                (20 if cheap else 12))):
         nl = rng.choice([2, 2, 2, 3])
         # (a model shared by the lanes is only read: exported and analysed, never edited)
         share = bool(models) and rng.random() < 0.3
@@ -1052,9 +1062,13 @@ def plan_threads(focus, seed, tier):
                     h, ref = avail.pop()
                 else:
                     break
+            readers_only = bool(written) and rng.random() < 0.4
             for _k in range(rng.randint(1, 3)):
                 if focus in ("uvl-docs", "third"):
                     path, fmt = rng.choice(docs)
+                    lane.append({"k": "R", "fmt": fmt, "path": path})
+                elif readers_only:
+                    path, fmt = rng.choice(written)
                     lane.append({"k": "R", "fmt": fmt, "path": path})
                 elif focus == "ops" and rng.random() < 0.2:
                     small = gen.default_cfg(rng, "whole", tier)
@@ -1084,13 +1098,27 @@ def plan_threads(focus, seed, tier):
                    first=rng.randrange(len(lanes)),
                    order=rng.choice(["seq_first", "seq_after"]), share=share,
                    rng_mode=rng.choice(["low", "high"]))
-        if rng.random() < 0.25:
-            # one lane's call is cancelled half-way (KeyboardInterrupt, a watchdog): the other
-            # lanes and every later call must not notice
-            import math
-            cop["interrupt"] = {"lane": rng.randrange(len(lanes)),
-                                "after": rng.randint(1, 60) if rng.random() < 0.4 else
-                                int(math.exp(rng.uniform(0.0, math.log(4000.0))))}
+        if rng.random() < 0.35:
+            # calls are cancelled half-way (KeyboardInterrupt, a watchdog, a per-item timeout):
+            # the other lanes and every later call must not notice
+            specs = []
+            for li in range(len(lanes)):
+                if specs and rng.random() < 0.5:
+                    continue
+                spec = {"lane": li}
+                j = rng.random()
+                if j < 0.3:
+                    # at the k-th library line no call in this interpreter has executed yet
+                    # (cold paths: first-use initialisation, cache fills), plus m further steps
+                    spec["new_line"] = rng.randint(1, rng.choice([8, 30, 120, 300]))
+                    spec["plus"] = rng.choice([0, 0, rng.randint(1, 12), rng.randint(1, 60)])
+                elif j < 0.5:
+                    spec["after"] = rng.randint(1, 60)
+                else:
+                    spec["frac"] = rng.random()    # of the lane's length (see worker)
+                specs.append(spec)
+            rng.shuffle(specs)
+            cop["interrupt"] = specs
             if rng.random() < 0.5:
                 # nothing of this operation runs before the cancelled call (cold caches, first
                 # use); the reference then comes from an interpreter of its own
